@@ -8,13 +8,6 @@ Import ListNotations.
 Ltac Zify.zify_post_hook ::= Z.to_euclidean_division_equations.
 Open Scope Z_scope.
 
-(* specification of the fold flag of the local reading of instant u *)
-Definition posix_fold (r : posix) (u : Z) : bool :=
-  match r.(p_dst) with
-  | None => false
-  | Some ds => negb (posix_isdst r u) && posix_isdst r (u - (ds.(d_off) - r.(p_off)))
-  end.
-
 Section Fold.
   Variable r : posix.
   Variable ds : dstpart.
